@@ -663,7 +663,27 @@ def base_work(item):
     return acc
 
 
+def desc_parent_work(parent):
+    """a description under every parent name the evaluator distinguishes (some are not EML element names at all), in every
+    form: the code reported must be that parent's own"""
+    acc = core.Acc()
+    forms = [[["description", None, {}, []]], [["description", "", {}, []]], [["description", "some text", {}, []]],
+             [["description", None, {}, [["para", "p", {}, []]]]], [["description", None, {}, [["markdown", "m", {}, []]]]], []]
+    for outer in ("methods", "project", "zzUnknownOuter", None):
+        for kids_ in forms:
+            spec = [parent, None, {}, e3._clone(["x", None, {}, kids_])[3]]
+            if outer:
+                spec = [outer, None, {}, [spec]]
+            case = {"kind": "mutant", "base": "description-parent:" + parent, "mutations": [], "spec": spec, "base_spec": None}
+            acc.add_problems(check(spec, case, acc=acc))
+            acc.count("trees")
+            acc.count("description_parent_trees")
+    return acc
+
+
 def work(item):
+    if item[0] == "desc":
+        return desc_parent_work(item[1])
     if item[0] == "edit":
         return edit_work(item[1])
     return param_work(item[1]) if item[0] == "param" else base_work(item[1])
@@ -755,6 +775,7 @@ def explore(tier):
         items.append(("base", (label, spec, d)))
     # evaluate - edit - evaluate on the baseline and on every single-knob deviation from it
     items += [("edit", dev) for dev in [dict()] + single_knob_deviations()]
+    items += [("desc", par) for par in sorted(DESC_PARENTS) + ["zzNotADescriptionParent", "methodstep"]]
     accs = core.pmap(work, items)
     acc = core.merge_all(accs)
     # validity of the baseline (reported, not required by the oracle); run in a child like everything else
